@@ -7,6 +7,7 @@ from ..core import (AnalysisError, dotted, unparse, calls_in, call_name,
                     walk_no_defs, parent, ancestors, ClassInfo, FuncInfo)
 from ..flow import guards_at, flatten_guards
 from ..mutate import Mutant, in_func
+from .. import guardspec
 
 ID = 'C18'
 EXPLANATION = (
@@ -430,10 +431,86 @@ def rule_r3(prog, res):
                     'the initial MethodContext is not created per call')
 
 
+# ------------------------------------------------------------------- R4
+def rule_r4(prog, res):
+    res.rule('R4', 'only the primary context\'s result and fault reach the '
+             'caller; only generated messages are marked as wrappers')
+    f = prog.cls('spyne.server.null:_FunctionCall').methods.get('__call__')
+    if f is None:
+        raise AnalysisError('_FunctionCall.__call__', 'not found')
+    n = 0
+    for c in calls_in(f.node):
+        is_cb = call_name(c) in ('_cb_sync', '_cb_async') or (
+            call_name(c) == 'addCallback' and c.args and
+            unparse(c.args[0]) in ('_cb_sync', '_cb_async'))
+        if not is_cb:
+            continue
+        n += 1
+        atoms = guardspec.atoms_at(c, f.node)
+        ok = ('_ == 0', True) in atoms
+        where = '%s:%d' % (f.module.relpath, c.lineno)
+        res.ob('R4', where, '_FunctionCall.__call__: %s under %s' % (
+            unparse(c)[:40], ['%s%s' % ('' if p_ else 'not ', t)
+                              for t, p_ in atoms]),
+            'ok' if ok else 'VIOLATED')
+        if not ok:
+            res.finding('R4', '_FunctionCall.__call__|callback-for-aux|%s' %
+                        call_name(c), where,
+                        '%s runs for contexts other than the first (it is '
+                        'not under "cnt == 0"): the result handler raises '
+                        'ctx.out_error, so a fault of an auxiliary method '
+                        'propagates to the caller of the primary method, '
+                        'and an auxiliary result can replace the primary '
+                        'one' % unparse(c)[:40])
+    res.floor('R4', 'result callbacks in _FunctionCall.__call__', n, 2)
+    m = prog.module('spyne.decorator')
+    k = 0
+    for g in m.functions.values():
+        for a in walk_no_defs(g.node):
+            if not (isinstance(a, ast.Assign) and any(
+                    unparse(t).endswith('Attributes._wrapper')
+                    for t in a.targets) and isinstance(
+                    a.value, ast.Constant) and a.value.value is True):
+                continue
+            k += 1
+            atoms = guardspec.atoms_at(a, g.node)
+            # bare messages are the user's own type, customized: the mark
+            # must be unreachable for them
+            excl = any((not pol) and ("'bare'" in t or 'BARE' in t)
+                       for t, pol in atoms) or any(
+                pol and ("'wrapped'" in t or 'WRAPPED' in t)
+                for t, pol in atoms)
+            # input messages are always generated (produce), whatever the
+            # style: only marks on values that can be the user's class count
+            src = [x.value for x in walk_no_defs(g.node)
+                   if isinstance(x, ast.Assign) and any(
+                       isinstance(t, ast.Name) and t.id == 'message'
+                       for t in x.targets)]
+            user_type = any(isinstance(v, ast.Call) and call_name(v) ==
+                            'customize' for v in src)
+            ok = excl or not user_type
+            where = '%s:%d' % (m.relpath, a.lineno)
+            res.ob('R4', where, '%s: _wrapper = True under %s (message may '
+                   'be the declared return type: %s)' % (
+                       g.qualname, ['%s%s' % ('' if p_ else 'not ', t)
+                                    for t, p_ in atoms], user_type),
+                   'ok' if ok else 'VIOLATED')
+            if not ok:
+                res.finding('R4', '%s|wrapper-mark-on-bare' % g.qualname,
+                            where, '%s marks the message as a wrapper on a '
+                            'path where it is the customized return type of '
+                            'a bare method: protocols that skip wrappers '
+                            'then drop that object\'s own level, and the '
+                            'in-process caller receives its first member '
+                            'instead of the object' % g.qualname)
+    res.floor('R4', 'wrapper marks in the decorator', k, 1)
+
+
 def run(prog, res, tier):
     res.run_rule(rule_r1, prog, res)
     res.run_rule(rule_r2, prog, res)
     res.run_rule(rule_r3, prog, res)
+    res.run_rule(rule_r4, prog, res)
 
 
 _N = 'spyne/server/null.py'
@@ -441,6 +518,26 @@ _A = 'spyne/application.py'
 _D = 'spyne/descriptor.py'
 
 MUTANTS = [
+    Mutant('aux-result-through-callback', 'R4', 'fire', _N,
+           in_func('_FunctionCall.__call__',
+                   "                    retval = _cb_sync(ctx, cnt, self)\n",
+                   "                    retval = _cb_sync(ctx, cnt, self)\n"
+                   "            else:\n"
+                   "                _cb_sync(ctx, cnt, self)\n"),
+           'callback-for-aux'),
+    Mutant('primary-test-rewritten', 'R4', 'benign', _N,
+           in_func('_FunctionCall.__call__', "            if cnt == 0:\n"
+                   "                if self._async",
+                   "            if not (cnt != 0):\n"
+                   "                if self._async"), None),
+    Mutant('wrapper-mark-for-bare', 'R4', 'fire', 'spyne/decorator.py',
+           in_func('_produce_output_message',
+                   "        message.Attributes._wrapper = True\n"
+                   "        message.__namespace__ = ns  # FIXME: is this "
+                   "necessary?\n",
+                   "        message.__namespace__ = ns  # FIXME: is this "
+                   "necessary?\n\n    message.Attributes._wrapper = True\n"),
+           'wrapper-mark-on-bare'),
     Mutant('unwrap-by-shape', 'R1', 'fire', _N,
            in_func('_cb_sync', "elif ctx.descriptor.is_out_bare():",
                    "elif not issubclass(ctx.descriptor.out_message, "
